@@ -234,59 +234,65 @@ def enter (c : Ctx) (s : St) : Option St :=
 def sameSet (a b : List (String × TP)) : Bool :=
   a.length == b.length && a.all b.contains && b.all a.contains
 
-/-- loads of all members in one pass (used only by guards no theorem depends on). -/
+/-- loads of all members in one pass (used only by a guard no theorem depends on). -/
 def levelMap (c : Ctx) (o : Own) : Std.HashMap String Nat :=
   c.parts.foldl (fun acc p => match o[p]? with | some m => acc.insert m (acc.getD m 0 + 1) | none => acc) {}
 
+/-- the engine's prior plan and stale claims are those of `parseMemberMetadata`. -/
+def initOK (c : Ctx) (s : St) (owns stl : List (String × TP)) : Bool :=
+  let io := initOwn c
+  s.phase == 0 && owns.length == io.size && owns.all (fun e => io[e.2]? == some e.1) && sameSet stl (stales c)
+
+/-- un-mapped: nobody wants the topic any more, or `m` itself does not. -/
+def dropOK (c : Ctx) (s : St) (m : String) (p : TP) : Bool :=
+  s.phase == 1 && s.own[p]? == some m && !c.sub m p.1
+
+/-- `tryRestickyStales`: the stale claimant can consume the topic and the partition is unassigned or sits
+on a member holding at least two more. -/
+def restickOK (c : Ctx) (s : St) (m : String) (p : TP) : Bool :=
+  s.phase == 1 && s.stale.contains (m, p) && c.sub m p.1 && c.isPart p &&
+    match s.own[p]? with
+    | none => true
+    | some cur => level c s.own m + 1 < level c s.own cur
+
+/-- an unassigned partition goes to a subscriber; without rack information to a least loaded one. -/
+def assignOK (c : Ctx) (s : St) (m : String) (p : TP) : Bool :=
+  s.phase == 1 && (s.own[p]?).isNone && c.sub m p.1 && c.isPart p
+    && (c.racks || (let lm := levelMap c s.own
+                    c.members.all fun x => !x.topics.contains p.1 || lm.getD m 0 ≤ lm.getD x.id 0))
+
+/-- a steal path for the active member `m`: a valid chain from `x`, which holds at least two more. -/
+def stealOK (c : Ctx) (s : St) (m x : String) (chain : List (TP × String)) : Bool :=
+  c.ids.contains m && !s.given.contains m && chainOK c s.own x chain && chainEnd x chain == m
+    && level c s.own m + 2 ≤ level c s.own x
+
+/-- `m` is a least loaded active member and cannot improve. -/
+def giveupOK (c : Ctx) (s : St) (m : String) : Bool :=
+  let lm := level c s.own m
+  c.ids.contains m && !s.given.contains m && ((active c s).all fun a => lm ≤ level c s.own a) && stuckB c s.own m
+
+/-- the members still active are within one of each other. -/
+def doneOK (c : Ctx) (s : St) : Bool :=
+  let ls := (active c s).map (level c s.own)
+  ls.all fun x => ls.all fun y => x ≤ y + 1
+
 def step (c : Ctx) (s : St) : Ev → Option St
-  | .init owns stl =>
-    let io := initOwn c
-    if s.phase == 0 && owns.length == io.size && owns.all (fun e => io[e.2]? == some e.1)
-        && sameSet stl (stales c) then
-      some { s with own := io, stale := stl, phase := 1 }
-    else none
-  | .drop m p =>
-    -- un-mapped: nobody wants the topic any more, or `m` itself does not
-    if s.phase == 1 && s.own[p]? == some m && !c.sub m p.1 then some { s with own := s.own.erase p } else none
-  | .restick m p =>
-    -- `tryRestickyStales`: the stale claimant can consume the topic and the partition is unassigned or
-    -- sits on a member holding at least two more
-    if s.phase == 1 && s.stale.contains (m, p) && c.sub m p.1 && c.isPart p then
-      match s.own[p]? with
-      | none => some { s with own := s.own.insert p m }
-      | some cur =>
-        let lm := levelMap c s.own
-        if lm.getD m 0 + 1 < lm.getD cur 0 then some { s with own := s.own.insert p m } else none
-    else none
-  | .assign m p =>
-    if s.phase == 1 && (s.own[p]?).isNone && c.sub m p.1 && c.isPart p
-        -- without rack information the engine picks a least loaded subscriber
-        && (c.racks || (let lm := levelMap c s.own
-                        c.members.all fun x => !x.topics.contains p.1 || lm.getD m 0 ≤ lm.getD x.id 0)) then
-      some { s with own := s.own.insert p m }
-    else none
+  | .init owns stl => if initOK c s owns stl then some { s with own := initOwn c, stale := stl, phase := 1 } else none
+  | .drop m p => if dropOK c s m p then some { s with own := s.own.erase p } else none
+  | .restick m p => if restickOK c s m p then some { s with own := s.own.insert p m } else none
+  | .assign m p => if assignOK c s m p then some { s with own := s.own.insert p m } else none
   | .steal m x chain =>
     match enter c s with
     | none => none
-    | some s =>
-      if c.ids.contains m && !s.given.contains m && chainOK c s.own x chain && chainEnd x chain == m
-          && level c s.own m + 2 ≤ level c s.own x then
-        some { s with own := applyChain s.own chain }
-      else none
+    | some s => if stealOK c s m x chain then some { s with own := applyChain s.own chain } else none
   | .giveup m =>
     match enter c s with
     | none => none
-    | some s =>
-      let lm := level c s.own m
-      if c.ids.contains m && !s.given.contains m && ((active c s).all fun a => lm ≤ level c s.own a) && stuckB c s.own m then
-        some { s with given := m :: s.given }
-      else none
+    | some s => if giveupOK c s m then some { s with given := m :: s.given } else none
   | .done =>
     match enter c s with
     | none => none
-    | some s =>
-      let ls := (active c s).map (level c s.own)
-      if ls.all fun x => ls.all fun y => x ≤ y + 1 then some { s with phase := 3 } else none
+    | some s => if doneOK c s then some { s with phase := 3 } else none
 
 /-- replay; `Except.error i` = event `i` refused. -/
 def run (c : Ctx) : St → Nat → List Ev → Except Nat St
